@@ -32,7 +32,9 @@ def lines(repo, read, find, report):
     B("c13_param_dup_test_remote_attr", (m.group(1).startswith("remoteIndex")) if m else 1)
     n = len(re.findall(r"addedIndices_\.insert\(std::make_pair\(global,\s*attribute\)\)\.second", src))
     report["c13_param_dedup_added"] = {"value": n, "source": "extracted" if n else "DEFAULT (not located in source)"}
-    B("c13_param_dedup_added", n == 2 if n else 1)
+    # guarded at every add site that is located; the NUMBER of sites depends on how the code is factored (the behaviour-preserving
+    # rewrite refactors/C13 merges the two duplicated branches into one, which raised an alarm while this read `n == 2`)
+    B("c13_param_dedup_added", n >= 1 if n else 1)
     B("c13_param_infosend_cleared", find("c13_param_infosend_cleared", src, r"(infoSend_\.clear\(\)\s*;)", 0, lambda s: 1))
     B("c13_param_modifier_repair_advances_giter", find("c13_param_modifier_repair_advances_giter", ri,
       r"for\(auto iter=rList_->begin\(\);\s*iter != end_;\s*\+\+iter,\s*(\+\+giter)\)", 0, lambda s: 1))
